@@ -29,7 +29,7 @@ STUB = ['host (owner of the names mapping)']
 REACH_PROBES = ('failed_then_judged', 'lang_error', 'other_error', 'nested_target', 'equal_typed_key_pair',
                 'negative_index', 'fractional_index', 'write_then_read_same_key', 'repeated_source', 'cache_hit', 'inner_blank_sibling_source', 'unjudged_activity_between_calls', 'failing_compound_after_mutation')
 
-CONTAINERS = ['l', 'd', 'n', 'e', 'm']
+CONTAINERS = ['l', 'd', 'n', 'e', 'm', 'dl']
 
 
 def _world(r):
@@ -38,6 +38,8 @@ def _world(r):
     names['d'] = gen.host_dict_spec(r, 0, 5)
     if r.random() < 0.7:
         names['n'] = [gen.host_list_spec(r, 0, 3, depth=0), gen.host_dict_spec(r, 0, 3, depth=0), gen.host_list_spec(r, 1, 3, depth=0)]
+    if r.random() < 0.15:
+        names['dl'] = [(i * 7) % 50 for i in range(150)]        # 150 elements, every value three times
     if r.random() < 0.5:
         names['e'] = []
     if r.random() < 0.5:
@@ -82,7 +84,7 @@ def _list_key(r, obj, ctxp):
     if k == 'frac':
         ctxp.append('fractional_index')
         base = r.randrange(n) if n else 0
-        t = ['num', '%d.%s' % (base, r.choice(['5', '0', '9', '25']))]
+        t = ['num', '%d.%s' % (base, r.choice(['5', '0', '9', '25', '9' * 20, '9' * 29, '0' * 19 + '1']))]
         if r.random() < 0.3:
             t = ['neg', ['num', '%d.%s' % (r.randint(0, max(0, n)), r.choice(['5', '9']))]]
         return t
@@ -124,6 +126,8 @@ def _dict_key(r, obj, ctxp):
 
 def _value(r, model):
     x = r.random()
+    if x < 0.05:
+        return ['list', [['num', str(i)] for i in range(r.choice([9, 12, 70]))]]        # a literal of a dozen (or seventy) constants
     if x < 0.12:
         return r.choice([['list', []], ['dict', []]])
     if x < 0.6:
